@@ -31,6 +31,7 @@ type pxFrame struct {
 	fn     *ssa.Function
 	id     string // "" for the root, "c3/" … for inlined frames
 	subst  map[*ssa.Parameter]*Term
+	fvs    map[*ssa.FreeVar]*Term // closures stepped into: the terms of their bindings
 	parent *pxFrame
 	site   *ssa.Call
 	depth  int
@@ -163,12 +164,24 @@ func (p *PX) term(v ssa.Value, fr *pxFrame, st *pxState) *Term {
 			return t
 		}
 		return &Term{K: TLeaf, V: v, T: v.Type(), key: "<" + fr.id + "p:" + x.Name() + ">"}
+	case *ssa.FreeVar:
+		if t, ok := fr.fvs[x]; ok && t != nil {
+			return t
+		}
+	case *ssa.Function:
+		// a function value denotes itself (pxconc.go)
+		if t := p.concTerm(&cval{k: cvFunc, Fn: x, T: x.Type()}, v.Type()); t != nil {
+			return t
+		}
 	case *ssa.Phi:
 		if t, ok := st.vals[p.reg(fr, v)]; ok {
 			return t
 		}
 	case *ssa.BinOp:
 		a, b := p.term(x.X, fr, st), p.term(x.Y, fr, st)
+		if t := concNilCmp(x.Op, a, b, v.Type()); t != nil {
+			return t
+		}
 		// (x >> a) >> b = x >> (a+b) for constant shifts of the same signedness (bits >>= 8 in a loop)
 		if x.Op == token.SHR && b.K == TConst && a.K == TBin && a.Op == token.SHR && a.B.K == TConst && types.Identical(a.T, v.Type()) {
 			sum := new(big.Int).Add(a.B.C, b.C)
@@ -209,6 +222,10 @@ func (p *PX) term(v ssa.Value, fr *pxFrame, st *pxState) *Term {
 		case token.MUL:
 			// a load executed on this path was bound when it was executed
 			if t, ok := st.vals[p.reg(fr, v)]; ok {
+				return t
+			}
+			// memory frozen since package initialisation (tables): the stored value
+			if t := p.concLoad(x.X, v.Type(), fr, st); t != nil {
 				return t
 			}
 			if fa, ok := x.X.(*ssa.FieldAddr); ok {
@@ -287,6 +304,9 @@ func (p *PX) term(v ssa.Value, fr *pxFrame, st *pxState) *Term {
 		}
 	case *ssa.Field:
 		a := p.term(x.X, fr, st)
+		if t := p.concElem(a, x.Field, v.Type()); t != nil {
+			return t
+		}
 		return &Term{K: TLeaf, V: v, T: v.Type(), key: fmt.Sprintf("fld(%s,.%d)", a.key, x.Field)}
 	case *ssa.IndexAddr:
 		a, i := p.term(x.X, fr, st), p.term(x.Index, fr, st)
@@ -305,7 +325,15 @@ func (p *PX) term(v ssa.Value, fr *pxFrame, st *pxState) *Term {
 	case *ssa.ChangeType:
 		a := p.term(x.X, fr, st)
 		if _, _, ok := intTypeInfo(p.w, v.Type()); ok {
-			return &Term{K: TConv, A: a, T: v.Type(), key: "conv:" + types.TypeString(v.Type(), nil) + "(" + a.key + ")"}
+			t := &Term{K: TConv, A: a, T: v.Type(), key: "conv:" + types.TypeString(v.Type(), nil) + "(" + a.key + ")"}
+			if a.K == TConst {
+				var fl evalFlags
+				if s := p.f.evalStruct(t, Env{}, &fl); s != nil && s.Card().Cmp(one) == 0 {
+					c := s.Min()
+					return &Term{K: TConst, C: c, T: v.Type(), key: c.String()}
+				}
+			}
+			return t
 		}
 		return a
 	case *ssa.MakeInterface:
@@ -314,6 +342,13 @@ func (p *PX) term(v ssa.Value, fr *pxFrame, st *pxState) *Term {
 			return p.term(x.X, fr, st)
 		}
 	case *ssa.Index:
+		if a := p.term(x.X, fr, st); a.CV != nil {
+			if it := p.term(x.Index, fr, st); it.K == TConst && it.C.IsInt64() {
+				if t := p.concElem(a, int(it.C.Int64()), v.Type()); t != nil {
+					return t
+				}
+			}
+		}
 		if b, ok := x.X.Type().Underlying().(*types.Basic); ok && b.Info()&types.IsString != 0 {
 			a, i := p.term(x.X, fr, st), p.term(x.Index, fr, st)
 			return &Term{K: TPure, Name: "strindex", Args: []*Term{a, i}, T: v.Type(), key: "idx(" + a.key + "," + i.key + ")"}
@@ -336,6 +371,9 @@ func (p *PX) term(v ssa.Value, fr *pxFrame, st *pxState) *Term {
 				return p.term(ms.Len, fr, st)
 			}
 			a := p.term(c.Args[0], fr, st)
+			if t := p.concLen(a, v.Type()); t != nil {
+				return t
+			}
 			if ml, ok := st.vals["mklen:"+a.key]; ok && p.views {
 				return ml // a slice made on this path: the length it was made with
 			}
@@ -575,6 +613,16 @@ func (p *PX) instrs(fr *pxFrame, b *ssa.BasicBlock, from int, st *pxState, k pxC
 		case *ssa.Call:
 			p.byteCall(x, fr, st)
 			sc := x.Call.StaticCallee()
+			// a callee held in a function value the path knows (a table entry, a
+			// closure): the call of that function (pxconc.go)
+			var dyn *pxCallee
+			if sc == nil {
+				if dyn = p.resolveCall(x, fr, st); dyn != nil {
+					sc = dyn.fn
+				}
+			} else if _, isMC := x.Call.Value.(*ssa.MakeClosure); isMC {
+				dyn = p.resolveCall(x, fr, st)
+			}
 			if sc == nil || !stepIn {
 				if sc != nil {
 					p.callEffects(sc, st)
@@ -593,11 +641,32 @@ func (p *PX) instrs(fr *pxFrame, b *ssa.BasicBlock, from int, st *pxState, k pxC
 			}
 			p.seq++
 			child := &pxFrame{fn: sc, id: fmt.Sprintf("%sc%d/", fr.id, p.seq), subst: map[*ssa.Parameter]*Term{}, parent: fr, site: x, depth: fr.depth + 1}
-			for ai, prm := range sc.Params {
-				if ai < len(x.Call.Args) {
-					child.subst[prm] = p.term(x.Call.Args[ai], fr, st)
-					if bs := p.byteSeqOf(x.Call.Args[ai], fr, st); bs != nil {
-						st.bseq[child.id+regName(prm)] = bs
+			if dyn != nil {
+				for ai, prm := range sc.Params {
+					if ai < len(dyn.args) {
+						child.subst[prm] = dyn.args[ai]
+						if dyn.vals[ai] != nil {
+							if bs := p.byteSeqOf(dyn.vals[ai], fr, st); bs != nil {
+								st.bseq[child.id+regName(prm)] = bs
+							}
+						}
+					}
+				}
+				if len(dyn.binds) > 0 {
+					child.fvs = map[*ssa.FreeVar]*Term{}
+					for bi, fv := range sc.FreeVars {
+						if bi < len(dyn.binds) {
+							child.fvs[fv] = dyn.binds[bi]
+						}
+					}
+				}
+			} else {
+				for ai, prm := range sc.Params {
+					if ai < len(x.Call.Args) {
+						child.subst[prm] = p.term(x.Call.Args[ai], fr, st)
+						if bs := p.byteSeqOf(x.Call.Args[ai], fr, st); bs != nil {
+							st.bseq[child.id+regName(prm)] = bs
+						}
 					}
 				}
 			}
